@@ -1158,6 +1158,9 @@ class Interp:
                 if k.arg is None:
                     d = self.known_dict(q, v)
                     if d is None:
+                        if isinstance(fv, ClsV) and fv.name == "dict":
+                            kws["$symbolic_kwargs"] = v
+                            continue
                         raise OutOfReach("**kwargs of unknown keys")
                     kws.update(d)
                 else:
